@@ -347,7 +347,7 @@ def genValue : Value → Option VKind → Except GErr MValue
         match inner with
         | .str s =>
           match hexDecode s with
-          | some bs => .ok (.array .u8 (MValues.ofList (bs.map (fun b => MValue.int .u8 (b : Int)))))
+          | some bs => .ok (.array .u8 (MValues.ofList (bs.map (fun (b : Nat) => MValue.int .u8 (Int.ofNat b)))))
           | none => .error .invalidBytesHex
         | _ => .error .invalidAstType
       | .nonFungibleGlobalId =>
